@@ -5,7 +5,8 @@ worktrees (tools/try_seed_wt.sh), N at a time, and records which checks detected
 ('detected_by').  Prints one line per seed; exit 1 if some seed is detected by nothing."""
 import concurrent.futures, json, os, re, subprocess, sys
 HERE = os.path.dirname(os.path.dirname(os.path.abspath(__file__)))
-EXTRA = {'C01-2': ['C02'], 'C07-4': ['C19'], 'C16-3': ['C04'], 'C10-3': ['C19'], 'C08-4': ['C19'], 'C02-3': ['C11']}
+EXTRA = {'C01-2': ['C02'], 'C07-4': ['C19'], 'C16-3': ['C04'], 'C10-3': ['C19'], 'C08-4': ['C19'], 'C02-3': ['C11'],
+         'C08-5': ['C19'], 'C11-5': ['C06'], 'C03-5': ['C02']}
 
 
 def one(sid):
@@ -32,7 +33,7 @@ def main():
     j = 4
     if args[:1] == ['-j']:
         j = int(args[1]); args = args[2:]
-    ids = args or sorted(os.listdir(os.path.join(HERE, 'seeded')))
+    ids = args or sorted(d for d in os.listdir(os.path.join(HERE, 'seeded')) if not d.startswith('_'))
     bad = 0
     with concurrent.futures.ThreadPoolExecutor(j) as ex:
         for sid, hits in ex.map(one, ids):
